@@ -181,6 +181,40 @@ def cmdRt (args : List String) : String :=
     | .error e => s!"error parse {e}"
   | _ => "error bad-args"
 
+/-- run a tree of any leaf type on a concrete store (as `RtCtx.runTree` does for call trees); also the
+    last result code it emitted -/
+def runOnStore {L : Type} (c : RtCtx) : Tree AEv Quest L → CState → String → CState × L × String
+  | .emit a k, σ, code =>
+      runOnStore c k (c.applyEv false σ (.act a)) (match a with | .ret cd => cd | _ => code)
+  | .ask q kt kf, σ, code =>
+      if c.answer σ q == some true then runOnStore c kt (c.applyEv false σ (.asked q true)) code
+      else runOnStore c kf (c.applyEv false σ (.asked q false)) code
+  | .leaf l, σ, code => (σ, l, code)
+
+def srcRunGo (c : RtCtx) (spec : SM Kont AEv Quest) (K : Kont) (σ : CState) (i : Nat) : List Nat → String
+  | [] => s!"alive after {i}"
+  | x :: rest =>
+    let (σ', l, code) := runOnStore c (spec.step K x) σ "?"
+    match l with
+    | .next K' => srcRunGo c spec K' σ' (i + 1) rest
+    | .halt => s!"halt {code} at {i}"
+
+/-- `srcrun opts prog machine word`: the reference semantics executed on a concrete word, on the store
+    the machine's declarations define: at which symbol (0-based) it halts and with what code. -/
+def cmdSrcRun (args : List String) : String :=
+  match args with
+  | [opts, ps, ms, w] =>
+    match parseProg ps, parseMachine ms with
+    | .ok p, .ok M =>
+      let c : RtCtx := { M := M, ro := parseRtOpts opts }
+      let o : SemOpts := { strictDone := false, substLast := true }
+      let spec := Src.sm p o
+      let word : List Nat := (splitOn w ' ').filterMap fun t => if t == "" then none else some t.toNat!
+      srcRunGo c spec spec.start (c.initStore {}) 0 word
+    | .error e, _ => s!"error parseProg {e}"
+    | _, .error e => s!"error parseMachine {e}"
+  | _ => "error bad-args"
+
 def cmdWf (args : List String) : String :=
   match args with
   | [opts, m] =>
@@ -359,6 +393,7 @@ def handle (line : String) : String :=
   | "refine" :: args => cmdRefine args
   | "ambig" :: args => cmdAmbig args
   | "mlook" :: args => cmdMlook args
+  | "srcrun" :: args => cmdSrcRun args
   | "ping" :: _ => "pong"
   | _ => "error unknown-command"
 
